@@ -356,6 +356,6 @@ Definition check_case (sel : Z) (cs : list int * (list (list int) * list (list i
           (vthen (if on 3 then mon_C03_detect c rs else vok)
           (vthen (if on 3 then mon_C03_sched c rs else vok)
           (vthen (if on 3 then mon_stuck 18 536 rs else vok)
-                 (corr_sched c rs))))
+          (vthen (corr_sched c rs) (corr_logs c rs)))))
         else if on 5 then vthen (mon_stuck 18 523 rs) (vthen (mon_below_owner rs) (vthen (mon_C05 rs) (corr_logs c rs))) else vok
   end.
